@@ -363,10 +363,42 @@ FIXED = [
 ]
 
 
+def all_histories(nobj, maxdepth=3):
+    """every attachment history that attaches all of `nobj` objects (default names), in every order and under every
+    admissible parent (not inside the child), nesting <= maxdepth levels"""
+    docs = [{'kind': 'text', 'settings': False, 'pics': []} for _ in range(nobj + 1)]
+    def rec(parent, kids, ops, left):
+        if not left:
+            yield {'mode': 'hist', 'docs': docs, 'ops': [list(o) for o in ops]}
+            return
+        def subtree(x):
+            out = [x]
+            for k in kids.get(x, []):
+                out += subtree(k)
+            return out
+        def height(x):
+            return 1 + max([height(k) for k in kids.get(x, [])] or [0])
+        def depth(x):
+            return 0 if x not in parent else 1 + depth(parent[x])
+        for c in left:
+            st = set(subtree(c))
+            for p in range(nobj + 1):
+                if p in st or depth(p) + height(c) > maxdepth:
+                    continue
+                parent2 = dict(parent); parent2[c] = p
+                kids2 = dict((k, list(v)) for k, v in kids.items()); kids2.setdefault(p, []).append(c)
+                for h in rec(parent2, kids2, ops + [(p, c, None)], [x for x in left if x != c]):
+                    yield h
+    return rec({}, {}, [], list(range(1, nobj + 1)))
+
+
 def gen_cases(chk, n):
     rng = chk.rng
     for c in FIXED:
         yield c
+    for k in ((1, 2, 3, 4) if chk.tier == 'thorough' else (1, 2, 3)):
+        for h in all_histories(k):
+            yield h
     for i in range(n):
         x = rng.random()
         if x < 0.45:
@@ -387,7 +419,8 @@ def run(chk, replay=None):
     chk.rule = ('attachment histories over 2-7 documents: 45% well ordered with default names (the hypothesis of the theorem), '
                 '35% any order with 25% explicit names, each document with 0-2 pictures, references written into the parent '
                 'as draw:object; every saved package is loaded and saved again; 20% hand-made packages with object folders '
-                'numbered 7 / 2,5 / 2,1 / 100 ... with pictures, other files and nested objects; non-trivial = at least one reference')
+                'numbered 7 / 2,5 / 2,1 / 100 ... with pictures, other files and nested objects; plus ALL histories that attach 1..3 (thorough: 4) '
+                'objects in every order under every admissible parent, nesting <= 3; non-trivial = at least one reference')
     if replay is not None:
         fails, refs, arch = run_case(chk, None, replay['input'], oracle_only=True)
         print('replay: refs=%r' % (refs,))
